@@ -17,7 +17,8 @@
   shows at the source" holds in it by construction; on the implementation it is established by
   the harness (probe edit after every successful copy + step-by-step agreement) — partial by tie —
   and, at POINTER level, by the heap theorems at the end of this file (`heap_copy_*`,
-  `heap_move_same_node`, `heap_add_stores_value_node`, `heap_patch_failure_restores`) over
+  `heap_move_same_node`, `heap_add_stores_value_node`, `heap_patch_failure_restores`, and the
+  refinement `heap_patch_abs`: heap-level op = `patchDo` on the abstraction) over
   YtkModel/HeapPatch.lean, tied to the code by the sharing-map correspondence of
   harness/heap_share2.go (kind heap-patch).
 -/
@@ -416,27 +417,27 @@ open Ytk.Heap
 /-- the value-level operation object: the same, with the value node replaced by its abstraction -/
 def absOp (o : HOpObj) (nv : Option Node) : OpObj := ⟨o.op, o.frm, o.path, nv⟩
 
-/-- REFINEMENT (all operations except move).  Let the document at `root` abstract to `d`
-    (`abs`: fuel = heap size), the value node — if the operation object has one — to `nv`, all
-    tokens be plain member names / indices, the location non-root, and let the parent cell of `path`
-    be reached from the root along that path ONLY, not reach itself, and not be contained in the
-    value (`Dest`: tree-shaped documents, a value that is not part of the document — when a
-    container or list object occurs at two places of a document, a write through one place shows
-    at the other, which no value-level tree operation expresses).  Then the heap-level operation
-    has the outcome of the value-level `patchDo`, and the document afterwards abstracts (with
-    some fuel) to the value-level result document.
-    Together with `patch_refines` this is: pointer-level patch = RFC 6902 on the abstraction.
-
-    Partial: `move` (two writes — detach, attach, and the rollback) needs `Dest` for the heap
-    after the detach as well; the full statement is the same with `hop` dropped and
-    `Dest ((doRemoveH f h root).1) root (parent path) [n]` added for the moved node `n`.  The
-    pointer-level facts about move are `heap_move_same_node` and `heap_patch_failure_restores`. -/
-theorem heap_patch_abs_partial (o : HOpObj) (h : Heap) (root : Addr) (d : Node) (nv : Option Node)
-    (hm : h.MapsOk) (hcl : h.Closed) (hroot : root < h.size) (hop : o.op ≠ "move")
+/-- REFINEMENT.  Let the document at `root` abstract to `d` (`abs`: fuel = heap size), the value
+    node — if the operation object has one — to `nv`, all tokens be plain member names / indices,
+    the location non-root, and let the parent cell of `path` be reached from the root along that
+    path ONLY, not reach itself, and not be contained in the value (`Dest`: tree-shaped documents,
+    a value that is not part of the document — when a container or list object occurs at two
+    places of a document, a write through one place shows at the other, which no value-level tree
+    operation expresses).  For `move` (two writes: detach at `from`, attach at `path`, and the
+    rollback at `from`) the same is asked of the parent of `from`, and of both parents in the heap
+    after the detach with the moved node as the value (`hmove`).  Then the heap-level operation has
+    the outcome of the value-level `patchDo`, and the document afterwards abstracts (with some
+    fuel) to the value-level result document.
+    Together with `patch_refines` this is: pointer-level patch = RFC 6902 on the abstraction. -/
+theorem heap_patch_abs (o : HOpObj) (h : Heap) (root : Addr) (d : Node) (nv : Option Node)
+    (hm : h.MapsOk) (hcl : h.Closed) (hroot : root < h.size)
     (hd : abs h root = some d)
     (hval : (∀ v, o.value = some v → ∃ x, nv = some x ∧ abs h v = some x) ∧ (o.value = none → nv = none))
     (hpath : ∀ p, o.path = some p → Plain p ∧ p ≠ [] ∧ Dest h root (parent p) o.value.toList)
-    (hfrm : ∀ f, o.frm = some f → Plain f) :
+    (hfrm : ∀ f, o.frm = some f → Plain f)
+    (hmove : o.op = "move" → ∀ f p, o.frm = some f → o.path = some p →
+      Dest h root (parent f) [] ∧ ∀ n, evalH h root f = some n →
+        Dest (doRemoveH f h root).1 root (parent p) [n] ∧ Dest (doRemoveH f h root).1 root (parent f) [n]) :
     ∃ G, absH G (patchDoH o h root).1 root = some (patchDo (absOp o nv) d).1 ∧
       (patchDoH o h root).2 = (patchDo (absOp o nv) d).2 := by
   have hm' : ∀ a kvs, Reach h root a → h.get? a = some (.cont kvs) → AMap.Sorted kvs :=
@@ -479,25 +480,33 @@ theorem heap_patch_abs_partial (o : HOpObj) (h : Heap) (root : Addr) (d : Node) 
             rw [hv] at hdest
             have := doReplaceH_abs hm' hpl hne hd0 hx hdest
             exact ⟨_, this.1, this.2⟩
-        · rw [if_neg h3, if_neg h3, if_neg hop, if_neg hop]
-          by_cases h5 : o.op = "copy"
-          · rw [if_pos h5, if_pos h5]
+        · rw [if_neg h3, if_neg h3]
+          by_cases h4 : o.op = "move"
+          · rw [if_pos h4, if_pos h4]
             cases hf : o.frm with
             | none => exact ⟨h.size, hd0, rfl⟩
-            | some f => exact copyH_abs hm hcl hroot (hfrm f hf) hpl hne hd hdest0
-          · rw [if_neg h5, if_neg h5]
-            by_cases h6 : o.op = "test"
-            · rw [if_pos h6, if_pos h6]
-              cases hv : o.value with
-              | none =>
-                rw [hval.2 hv]
+            | some f =>
+              obtain ⟨m1, m2⟩ := hmove h4 f path hf hp
+              exact moveH_abs hm (hfrm f hf) hpl hne hd0 m1 m2
+          · rw [if_neg h4, if_neg h4]
+            by_cases h5 : o.op = "copy"
+            · rw [if_pos h5, if_pos h5]
+              cases hf : o.frm with
+              | none => exact ⟨h.size, hd0, rfl⟩
+              | some f => exact copyH_abs hm hcl hroot (hfrm f hf) hpl hne hd hdest0
+            · rw [if_neg h5, if_neg h5]
+              by_cases h6 : o.op = "test"
+              · rw [if_pos h6, if_pos h6]
+                cases hv : o.value with
+                | none =>
+                  rw [hval.2 hv]
+                  exact ⟨h.size, hd0, rfl⟩
+                | some v =>
+                  obtain ⟨x, rfl, hx⟩ := hval.1 v hv
+                  obtain ⟨t1, t2, t3⟩ := doTestH_abs (path := path) hpl hd hx
+                  exact ⟨h.size, by rw [t1, t3]; exact hd0, t2⟩
+              · rw [if_neg h6, if_neg h6]
                 exact ⟨h.size, hd0, rfl⟩
-              | some v =>
-                obtain ⟨x, rfl, hx⟩ := hval.1 v hv
-                obtain ⟨t1, t2, t3⟩ := doTestH_abs (path := path) hpl hd hx
-                exact ⟨h.size, by rw [t1, t3]; exact hd0, t2⟩
-            · rw [if_neg h6, if_neg h6]
-              exact ⟨h.size, hd0, rfl⟩
 
 /-- non-vacuity: on `pHeap` (a tree as far as containers and lists go) the hypotheses hold for
     `add /b/y <leaf #1>`, and both sides give the same document -/
@@ -524,7 +533,7 @@ theorem not_reach_of_closed {h : Heap} (S : List Addr)
   have h2 := List.all_eq_true.mp h1 k hk
   simpa using h2
 
-/-- … and the hypotheses of `heap_patch_abs_partial` hold there: `Dest` for the parent /b of the
+/-- … and the hypotheses of `heap_patch_abs` hold there: `Dest` for the parent /b of the
     location /b/y and the value node #1 -/
 theorem nonvacuous_heap_patch_abs_hyps :
     pHeap.MapsOk ∧ pHeap.Closed ∧ Plain ["b", "y"] ∧ Dest pHeap 4 (parent ["b", "y"]) [1] := by
